@@ -482,8 +482,15 @@ func (t *tOps) remove(fd storage.FileDesc) {
 		if t.evictRemoved && t.blockCache != nil {
 			t.blockCache.EvictNS(uint64(fd.Num))
 		}
-		// Try to reuse file num, useful for discarded transaction.
-		t.s.reuseFileNum(fd.Num)
+		// Try to reuse file num, useful for discarded transaction. Cached
+		// blocks are keyed by file num, so they must be gone before the
+		// number can name another table.
+		if t.s.nextFileNum() == fd.Num+1 {
+			if !t.evictRemoved && t.blockCache != nil {
+				t.blockCache.EvictNS(uint64(fd.Num))
+			}
+			t.s.reuseFileNum(fd.Num)
+		}
 	})
 }
 
